@@ -903,8 +903,8 @@ func vdmeProbes(c vdmeCall) []vdmeCall {
 	case "Metrics":
 		same = vdmeCall{EP: c.EP, ID: "none", Hash: "none", Msg: func(w *vdmWorld) proto.Message { return &drand.MetricsRequest{} }}
 	case "DKGPacket":
-		same = vdmeCall{EP: c.EP, ID: "a", Hash: "none", GM: "shortSig", Body: "none", Msg: func(w *vdmWorld) proto.Message {
-			return &pdkg.GossipPacket{Metadata: &pdkg.GossipMetadata{BeaconID: "a", Signature: []byte{1}}}
+		same = vdmeCall{EP: c.EP, ID: "a", Hash: "none", GM: "ok", Body: "none", Msg: func(w *vdmWorld) proto.Message {
+			return &pdkg.GossipPacket{Metadata: &pdkg.GossipMetadata{BeaconID: "a", Address: "127.0.0.1:9", Signature: vdmeBytes(8, 0x61)}}
 		}}
 	case "BroadcastDKG":
 		same = vdmeCall{EP: c.EP, ID: "a", Hash: "none", Body: "ok", Msg: func(w *vdmWorld) proto.Message { return &pdkg.DKGPacket{Dkg: vdmeInnerPacket("a", "")} }}
@@ -925,8 +925,8 @@ func vdmeProbes(c vdmeCall) []vdmeCall {
 			return &drand.ChainInfoRequest{Metadata: &drand.Metadata{ChainHash: w.chains["a"].hash}}
 		}},
 		{EP: "Status", ID: "default", Hash: "none", GM: "-", Body: "any", Name: "o-status", Msg: func(w *vdmWorld) proto.Message { return &drand.StatusRequest{Metadata: md("default")(w)} }},
-		{EP: "DKGPacket", ID: "a", Hash: "none", GM: "shortSig", Body: "none", Name: "o-dkgpacket", Msg: func(w *vdmWorld) proto.Message {
-			return &pdkg.GossipPacket{Metadata: &pdkg.GossipMetadata{BeaconID: "a", Signature: []byte{1}}}
+		{EP: "DKGPacket", ID: "a", Hash: "none", GM: "ok", Body: "none", Name: "o-dkgpacket", Msg: func(w *vdmWorld) proto.Message {
+			return &pdkg.GossipPacket{Metadata: &pdkg.GossipMetadata{BeaconID: "a", Address: "127.0.0.1:9", Signature: vdmeBytes(8, 0x61)}}
 		}},
 		{EP: "BroadcastDKG", ID: "a", Hash: "none", GM: "-", Body: "ok", Name: "o-broadcast", Msg: func(w *vdmWorld) proto.Message { return &pdkg.DKGPacket{Dkg: vdmeInnerPacket("a", "")} }},
 		{EP: "HttpHealth", ID: "none", Hash: "h_a", GM: "-", Body: "any", Name: "o-health", Path: func(w *vdmWorld) string { return w.httpSeg("h_a") + "/health" }},
@@ -1347,8 +1347,8 @@ func TestVerifEndpointsConc(t *testing.T) {
 	var classes []vdmeCall
 	for _, c := range vdmeShapes(false) {
 		k := c.EP + "|" + c.ID + "|" + c.Hash + "|" + c.GM + "|" + c.Body
-		if seen[k] || c.Tick || (c.EP == "DKGPacket" && c.Body == "dkgWithMeta") {
-			continue // (the F1 packet wedges the DKG process by itself)
+		if seen[k] || c.Tick {
+			continue
 		}
 		seen[k] = true
 		classes = append(classes, c)
